@@ -134,6 +134,8 @@ func (k Key) MatchString(tgt string) bool {
 			mask |= ModCtrl
 		case "super":
 			mask |= ModSuper
+		case "hyper":
+			mask |= ModHyper
 		case "meta":
 			mask |= ModMeta
 		case "caps":
